@@ -111,7 +111,7 @@ ENGINES["rangec"] = dict(drv="range", starts=("rsetup",), trivial=r"$^", branche
 ENGINES["prefixc"] = dict(drv="prefix", starts=("psetup",), trivial=r"$^", branches=["batch", "prefix.prace"], noshrink=True)
 ENGINES["dispatch4c"] = dict(drv="dispatch4", starts=(), trivial=r"=> U ; drop ; inv -$", branches=[])
 
-ENGINES["config"] = dict(drv="config", starts=(), trivial=r"=> unreadable ; err$",
+ENGINES["config"] = dict(drv="config", diverge_owner=(lambda line, pid, msg: pid == "C18"), starts=(), trivial=r"=> unreadable ; err$",
     branches=["cload.ok", "cload.err", "cload.dual", "cload.plugins-nil", "cload.bad-item", "cload.iface", "cload.iface+listen", "cload.listen", "cload.default-listen", "cload.zoned", "cload.unreadable"])
 
 ENGINES["plug"] = dict(drv="plug", starts=("pcfg",), trivial=r"^pcfg .* ; (err|unsupported)$|=> skip$",
@@ -141,7 +141,7 @@ PROPS = {
         assumptions=["the response handed to server_id carries at most one Server-ID option (true of every chain of built-in plugins)", "strings.ToLower of the DUID type is modelled for ASCII"],
     ),
     "C17": dict(
-        engines=[("plug", 4000, 60000), ("sys", 1500, 30000), ("serve", 2, 8)],
+        engines=[("plug", 4000, 60000), ("sys", 1500, 30000), ("serve", 2, 8), ("config", 1500, 15000)],
         theorems=["C17_builtin4", "C17_builtin6", "C17_netmask4", "C17_router4", "C17_searchdomains4", "C17_searchdomains6", "C17_staticroute4", "C17_dns4", "C17_dns6", "C17_mtu4",
                   "C17_nbp4", "C17_nbp6", "C17_leasetime4", "C17_ipv6only4", "C17_autoconfigure4", "C17_sleep4", "C17_sleep6", "C17_inrange_mtu", "C17_inrange_seconds", "C17_D17_prefix_refuted",
                   "C11_builtin_preserve_mt", "C12_builtin_preserve_mt", "C11_builtin_preserve_echo_opts", "C12_builtin_preserve_cid", "SYS_C17_delivered4"],
